@@ -24,7 +24,7 @@ RULE = ('Hypothesis state machine over a generated budget directory (old ./confi
         'at new paths; no rules file changes without --migrate, and with it every pre-existing file\'s content survives (same path or '
         'backup). Non-trivial = >=2 commands incl. init or --migrate on a budget with >=1 pre-existing config file.')
 ASSUMPTIONS = ['commands run non-interactively (stdin/stdout are not ttys)', 'the output location is the configured output folder (also used for -o in this check)']
-REQUIRED_CLASSES = ['init_on_existing', 'up_migrate', 'legacy_csv_present', 'existing_bak', 'old_layout', 'new_layout', 'crlf_files']
+REQUIRED_CLASSES = ['init_on_existing', 'up_migrate', 'legacy_csv_present', 'existing_bak', 'existing_bak_gap', 'old_layout', 'new_layout', 'crlf_files']
 
 SETTINGS_BASE = 'year: 2024\ndata_sources:\n  - name: Bank\n    file: data/bank.csv\n    format: "{date:%Y-%m-%d},{description},{amount}"\n'
 RULES_TXT = '# my rules\n[Netflix]\nmatch: contains("NETFLIX")\ncategory: Subscriptions\nsubcategory: Streaming\ntags: recurring\n'
@@ -38,7 +38,7 @@ shape_st = st.fixed_dictionaries({
     'settings': st.sampled_from(['plain', 'plain', 'with_rules', 'with_rules_views', 'no_trailing_newline', 'absent']),
     'rules': st.sampled_from(['absent', 'present', 'present']),
     'csv': st.sampled_from(['absent', 'rules', 'rules', 'empty']),
-    'bak': st.booleans(), 'views': st.booleans(), 'notes': st.booleans(), 'old_report': st.booleans(), 'data': st.booleans(),
+    'bak': st.booleans(), 'baks': st.sampled_from([[], [], ['.bak2'], ['.bak3'], ['.bak2', '.bak3'], ['.bak.old'], ['.backup']]), 'views': st.booleans(), 'notes': st.booleans(), 'old_report': st.booleans(), 'data': st.booleans(),
     'crlf': st.sampled_from([False, False, True]),
 })
 
@@ -79,6 +79,9 @@ class Folder:
             w('config/merchant_categories.csv', CSV_RULES if shape['csv'] == 'rules' else CSV_EMPTY)
         if shape['bak']:
             w('config/merchant_categories.csv.bak', 'Pattern,Merchant,Category,Subcategory\nOLD BACKUP,Old,Misc,Old\n')
+        # earlier backups need not be numbered contiguously (the user may have deleted or renamed some)
+        for suf in shape.get('baks') or []:
+            w('config/merchant_categories.csv' + suf, f'Pattern,Merchant,Category,Subcategory\nOLDER BACKUP {suf},Old,Misc,Old\n')
         if shape['views']:
             w('config/views.rules', VIEWS_TXT)
         if shape['notes']:
@@ -153,6 +156,8 @@ class Machine(RuleBasedStateMachine):
             self.classes.add('legacy_csv_present')
         if shape['bak']:
             self.classes.add('existing_bak')
+        if shape.get('baks'):
+            self.classes.add('existing_bak_gap')
         if shape.get('crlf'):
             self.classes.add('crlf_files')
         self.pre_config = any(shape[k] not in ('absent', False) for k in ('settings', 'rules', 'csv', 'views'))
